@@ -203,7 +203,7 @@ C10Expected(D2, s, n) ==
     LET b == Definer(D2, s, "refs", n)
         r == D2.refs[b][n]
         v == r.v IN
-    IF b = s \/ v[1] = "int" THEN <<TRUE, v>>
+    IF b = s \/ v[1] \notin {"sp", "ce"} THEN <<TRUE, v>>
     ELSE IF r.mode = "absolute" THEN <<TRUE, v>>
     ELSE IF v[2] = b /\ v[3] = <<>>
          THEN <<TRUE, IF v[1] = "ce" THEN CeObj(s, <<>>, v[4]) ELSE SpObj(s, <<>>)>>
@@ -234,7 +234,7 @@ DefsLabels(tag, D2, pd) ==
       \cup Lbl(\A s \in both : \A n \in DOMAIN prefs[s] \cap ENames(D2, s, "refs") :
                   LET m == EMember(D2, s, "refs", n)  q == prefs[s][n] IN
                   (q.mode = m.mode /\ q.derived = IsDerived(D2, s, "refs", n)
-                   /\ (m.v[1] = "int" => q.v = m.v))
+                   /\ (m.v[1] \in {"int", "lit"} => q.v = m.v))
                   \/ ~PrintT(<<"INFO", tag, "ref", s, n, q, "expected", m>>),
                "C03.DerivedRefsDefs")
       \cup Lbl(\A s \in both : \A n \in DOMAIN prefs[s] \cap ENames(D2, s, "refs") :
@@ -293,4 +293,54 @@ ItemLabels(tag, DD, D2, e, items) ==
                Lbl(\E a \in items : a[1] = want[1] /\ a[2] = want[2] /\ a[3] = e.hid,
                    "C07.SameArgsSameInstance")
           ELSE {})
+-----------------------------------------------------------------------------
+(* C04: a write_read event carries, for each container format, the          *)
+(* projection of the model that was read back (rd.defs, with formula source *)
+(* text, docs, parameter formulas), its inputs, and the value every queried *)
+(* element returned in it; fdefs/minputs are the same projections of the    *)
+(* model that was written.                                                 *)
+\* KNOWN FINDING KF2: the reference mode of a reference whose value is not a modelx
+\* object (the file format writes it as `name = <literal>`) is not saved: it reads
+\* back as "auto".  Projections are compared modulo exactly that.
+NormValueModes(pd) ==
+    [pd EXCEPT !.refs = [i \in DOMAIN @ |->
+        <<@[i][1], [n \in DOMAIN @[i][2] |->
+            IF @[i][2][n].v[1] \in {"int", "lit", "dead"} THEN [@[i][2][n] EXCEPT !.mode = "auto"]
+            ELSE @[i][2][n]]>>]]
+
+WriteReadLabels(tag, D2, e, pdefsBefore, dataBefore, dl) ==
+    LET reads == Range(e.reads) IN
+      Lbl(\A rd \in reads : rd.readable, "C04.ReadableIfWritten")
+      \cup Lbl(\A rd \in {x \in reads : x.readable} :
+                 NormValueModes(rd.defs) = NormValueModes(e.fdefs)
+                 \/ ~PrintT(<<"INFO", tag, "roundtrip", rd.fmt, "differs">>), "C04.DefsRoundTrip")
+      \cup Lbl(\A rd \in {x \in reads : x.readable} :
+                 NormValueModes(rd.defs) = NormValueModes(e.fdefs) => rd.defs = e.fdefs,
+               "KF:C04.refmode-of-value-reference")
+      \* KNOWN FINDING KF3: values assigned to a DERIVED cells are not written (derived
+      \* cells are not part of the saved text at all); compared modulo exactly those
+      \cup Lbl(\A rd \in {x \in reads : x.readable} :
+                 LET Own(S) == {q \in S : ~(Len(q[1][2]) = 0 /\ NodeExists(D2, q[1])
+                                             /\ IsDerived(D2, q[1][1], "cells", q[1][3]))} IN
+                 Own(Range(rd.inputs)) = Own(Range(e.minputs)), "C04.InputsRoundTrip")
+      \cup Lbl(\A rd \in {x \in reads : x.readable} :
+                 LET Der(S) == {q \in S : Len(q[1][2]) = 0 /\ NodeExists(D2, q[1])
+                                           /\ IsDerived(D2, q[1][1], "cells", q[1][3])} IN
+                 Der(Range(rd.inputs)) = Der(Range(e.minputs)), "KF:C04.input-of-derived-cells")
+      \* (values are judged under the inputs that were actually read back; whether
+      \*  those are the right ones is C04.InputsRoundTrip's business)
+      \cup Lbl(\A rd \in {x \in reads : x.readable} :
+                 LET Dr == [D2 EXCEPT !.inp = PairsToFun(rd.inputs)] IN
+                 \A q \in Range(rd.values) :
+                 (NodeExists(Dr, q[1]) => q[2] = Den(Dr, q[1]))
+                 \/ ~PrintT(<<"INFO", tag, "read-back value", rd.fmt, q, "expected", Den(Dr, q[1])>>),
+               "C04.ValuesRoundTrip")
+      \cup Lbl(\A rd \in {x \in reads : x.readable /\ "defs2" \in DOMAIN x} :
+                 NormValueModes(rd.defs2) = NormValueModes(e.fdefs)
+                 /\ Range(rd.inputs2) = Range(rd.inputs), "C04.ChainRoundTrip")
+      \cup Lbl(Range(e.files_dir) = Range(e.files_zip)
+               \/ ~PrintT(<<"INFO", tag, "files", Range(e.files_dir) \ Range(e.files_zip),
+                            Range(e.files_zip) \ Range(e.files_dir)>>), "C04.ZipEqDir")
+      \cup Lbl(e.post.defs = pdefsBefore /\ DOMAIN dl = DOMAIN dataBefore
+               /\ \A x \in DOMAIN dl : dl[x] = dataBefore[x], "C04.WriteAltersNothing")
 =============================================================================
